@@ -267,6 +267,8 @@ def run_check(pid, tier, seed):
         k = match_known(pid, sig, known)
         if k is None and unknown_reported >= MAX_REPORTED:
             continue
+        if k is not None and k["signature"] in printed_known:
+            continue        # this listed finding has already been confirmed and printed through another witness
         path = write_replay(pid, sig, case, msg)
         ok = 0
         try:
